@@ -240,15 +240,26 @@ Theorem align_truncates_a_long_target : forall t p m, length p < length t -> ali
 Proof. exact align_truncates. Qed.
 Print Assumptions align_truncates_a_long_target.
 
-(* the third argument: 'left' | 'right' | 'center', anything else = left.  The code compares only the first
-   |keyword| code units, so 'centered' centres (finding K-C02x-3). *)
-Theorem align_keyword_refuted : exists a, align_mode_of a <> spec_mode a.
-Proof. exact align_mode_refuted. Qed.
-Print Assumptions align_keyword_refuted.
+(* the third argument: 'left' | 'right' | 'center', anything else = left.  The code as found compares only the first
+   |keyword| code units, so 'centered' centres (finding K-C02x-3).  GenXpx.gen_align_exact_keyword records which
+   comparison /repo has now; the three statements below are true for both forms, so the proof leg keeps checking
+   when the repair is committed: the guarded statement always, the full statement exactly for the repaired form. *)
+Theorem align_keyword_prefix_form_refuted : exists a, align_mode_gen false a <> spec_mode a.
+Proof. exact align_mode_prefix_refuted. Qed.
+Print Assumptions align_keyword_prefix_form_refuted.
 
 Theorem align_keyword_partial : forall a, align_guard a = true -> align_mode_of a = spec_mode a.
 Proof. exact align_mode_partial. Qed.
 Print Assumptions align_keyword_partial.
+
+Theorem align_keyword_exact_form_full : forall a, align_mode_gen true a = spec_mode a.
+Proof. exact align_mode_exact_full. Qed.
+Print Assumptions align_keyword_exact_form_full.
+
+Theorem align_keyword_as_found : (gen_align_exact_keyword = true /\ forall a, align_mode_of a = spec_mode a)
+  \/ (gen_align_exact_keyword = false /\ exists a, align_mode_of a <> spec_mode a).
+Proof. exact align_mode_full_or_refuted. Qed.
+Print Assumptions align_keyword_as_found.
 
 Example align_example :
   align [97; 98]%N [49; 50; 51; 52; 53; 54; 55]%N ACenter = [49; 50; 97; 98; 53; 54; 55]%N
